@@ -258,7 +258,7 @@ impl Server {
             let accepts_gzip = req
                 .headers()
                 .get("Accept-Encoding")
-                .map(|v| v.to_str().unwrap().contains("gzip"))
+                .map(|v| v.to_str().is_ok_and(|v| v.contains("gzip")))
                 .unwrap_or_default();
 
             if accepts_gzip {
